@@ -88,6 +88,7 @@ impl Ctx {
             println!("KNOWN-FINDING: property={} {k}: {what} (hit {n} times)", self.prop);
         }
         self.write_evidence(&ev, 0);
+        crash::finish_current();
         if ev.stats.evaluations > 0
             && ev.stats.aborted.values().sum::<u64>() + ev.stats.known.values().sum::<u64>()
                 >= ev.stats.evaluations
@@ -117,6 +118,28 @@ impl Ctx {
         self.write_evidence(&ev, 1);
         Finish::Violation
     }
+}
+
+/// Replay document of the case a worker is about to execute (written by the fault handler).
+pub fn fault_doc<C: Serialize>(prop: &str, engine: &str, case: &C) -> String {
+    json!({
+        "property": prop,
+        "engine": engine,
+        "geometry": geometry_name(),
+        "features": geometry_features(),
+        "message": "memory fault or stack overflow (runaway recursion) while executing this case",
+        "case": serde_json::to_value(case).unwrap(),
+    })
+    .to_string()
+}
+
+/// Install the fault handler for a generated-case driver. A fault is a violation for the
+/// properties that say "no call aborts / every call returns" (C09, C03, C21) and for C18.
+pub fn install_fault_handler(ctx: &Ctx) {
+    let _ = std::fs::create_dir_all(&ctx.replay_dir);
+    let path = ctx.replay_dir.join(format!("{}-fault-{}.json", ctx.prop, geometry_features()));
+    let violation = matches!(ctx.prop.as_str(), "C09" | "C03" | "C21" | "C18");
+    crash::install_as(&ctx.prop, &path, violation);
 }
 
 pub fn geometry_features() -> &'static str {
@@ -326,6 +349,13 @@ pub fn main_entry() {
                 serde_json::from_str(&std::fs::read_to_string(path).expect("read replay file"))
                     .expect("parse replay file");
             let prop = doc["property"].as_str().unwrap().to_string();
+            if matches!(prop.as_str(), "C09" | "C03" | "C21") {
+                // a fault (e.g. stack overflow by runaway recursion) while replaying is the violation
+                let _ = std::fs::create_dir_all(tmp_dir());
+                crash::install_as(&prop, &tmp_dir().join("replay-fault.json"), true);
+                let text = std::fs::read_to_string(path).unwrap_or_default();
+                crash::set_current(Box::leak(text.into_boxed_str()));
+            }
             if doc["features"].as_str() != Some(geometry_features()) {
                 println!(
                     "WRONG-GEOMETRY: replay needs features {}",
